@@ -410,7 +410,7 @@ func replayBatch(par int, jobs []string) string {
 func c12(c *Ctx) {
 	c.Rule = "sequential scripts (wseq): random scripts of heartbeats, commands (7 command ids + 0x9003), responses of the 5 echoing types in any order, duplicates, unknown serials, unparsable bodies, 0x1003, timeouts, disconnect, executed step by step on a live server and compared token by token with the model; concurrent scenarios (wexp): 1..8 callers with timeouts 60-600 ms against a scripted terminal (answers delayed/late/twice/unknown/unparsable/never, 5-8 answers in one TCP segment, heartbeats and location reports in between, serial wrap at 65535, close/RST), the recorded history must be explained by a schedule of the model and pass the direct oracle; the server runs in child processes (a crash is an observation); a case is non-trivial when it contains at least one command written to the terminal; distinct = distinct request lines"
 	// ---- jobs
-	nseq := 60
+	nseq := 300
 	if !c.Quick() {
 		nseq = 600
 	}
@@ -428,7 +428,7 @@ func c12(c *Ctx) {
 	}
 	kinds := []string{"burst", "burst", "order", "late", "dup", "unknown", "bad", "never", "mixed", "mixed", "attr", "notmo", "prejoin",
 		"close-outstanding", "close-afterresp", "close-queued"}
-	per := 12
+	per := 60
 	if !c.Quick() {
 		per = 150
 	}
@@ -438,7 +438,7 @@ func c12(c *Ctx) {
 			jobs = append(jobs, jobT{line: fmt.Sprintf("scn %s %d", k, seed), kind: k, seed: seed})
 		}
 	}
-	nwrap := 1
+	nwrap := 2
 	if !c.Quick() {
 		nwrap = 6
 	}
